@@ -380,10 +380,11 @@ theorem qasm_unknown_inner_witness :
       | .ok t => (parseDecl t).bind declOps
       | .error _ => none) = none := by decide
 
-/-- why `wellNamed` asks that no qubit is called like the fallback name of an unnamed one: with
-`{"q1": 0}` on two qubits the repaired exporter declares `gate g q1 q1` -/
-theorem qasm_fallback_clash_witness :
+/-- the fallback name of an unnamed qubit avoids the names of the other qubits: with `{"q1": 0}`
+on two qubits the exporter declares `gate g q1 _q1` (before fix 'fallback clash' it declared
+`gate g q1 q1`); `wellNamed` still excludes the case, which keeps its statement simple -/
+theorem qasm_fallback_fresh_example :
     let c : Circ := ⟨['g'], 2, [(['q', '1'], 0)], [⟨.CX, [0, 1], .none, 0⟩]⟩
-    qasmFormals Quirks.none c = [['q', '1'], ['q', '1']] ∧ wellNamed c = false := by decide
+    qasmFormals Quirks.none c = [['q', '1'], ['_', 'q', '1']] ∧ wellNamed c = false := by decide
 
 end QV.C13
